@@ -35,7 +35,7 @@ ASSUMPTIONS = [
 ]
 MUST_SEE = [
     "op_detach_stale_with_live_twin", "op_replace_fail", "drops", "suffix_ge_2", "detach_depth_ge2", "asobj_recreated",
-    "asobj_reused", "digest1_histories", "dead_weakrefs_checked", "replace_on_stale", "id_determinism_checks",
+    "asobj_reused", "digest1_histories", "dead_weakrefs_checked", "replace_on_stale", "id_determinism_checks", "replace_fail_after_registration",
 ]
 CONFIG = {
     "quick": {"shards": 16, "histories": 40, "ops": 35, "watchdog_s": 300},
@@ -167,6 +167,7 @@ class History:
         tg = G.TreeGen(rng, U, max_nodes=6, max_depth=3, max_width=3, share=0.0, twin=0.3, p_origin=0.0, hostile=0.0, exclude=(f"{P}Stmt",))
         contents = [tg.tree() for _ in range(rng.randint(3, 8))]
         # make sure a depth >= 2 content exists
+        contents.append(S(f"{P}Picky", {"v": rng.randrange(3)}))
         contents.append(S(f"{P}Un", {}, {"child": S(f"{P}Bin", {}, {"left": S(f"{P}Leaf", {"v": 1}), "right": S(f"{P}List", {}, {"items": (S(f"{P}Leaf", {"v": 2}),)})})}))
         origs = [("no",), ("code", 0, 1, 3), ("gen", 1)]
         kinds = []
@@ -256,6 +257,12 @@ class History:
         elif r < 0.64:
             n = rng.choice(nodes)
             how = rng.choice(["TypeError", "ValueError", "InvalidTypes"])
+            picky = [x for x in nodes if type(x).__name__ == f"{P}Picky"]
+            if picky and rng.random() < 0.5:
+                # the node's own __post_init__ raises *after* the base registered the rejected copy
+                n = rng.choice(picky)
+                how = "post_init_raises"
+                ctx.count("replace_fail_after_registration")
             op = "replace_fail"
             self.log.append((op, n.id, how))
             snap = registry_snapshot()
@@ -263,6 +270,8 @@ class History:
             try:
                 if how == "TypeError":
                     n.replace(no_such_field=1)
+                elif how == "post_init_raises":
+                    n.replace(note="boom")
                 elif how == "ValueError":
                     n.replace(content_id="x") if rng.random() < 0.5 else n.replace(id="x")
                 else:
@@ -276,6 +285,8 @@ class History:
             if exc is None:
                 self.bad("replace-did-not-fail", "a replace that must fail returned", how=how)
             ctx.count("op_replace_fail")
+            e = None
+            collect()  # the rejected copy (kept alive only by the traceback) must be gone
             if registry_snapshot() != snap:
                 self.bad("failing-replace-changed-registry", "a replace() that raised changed the registry", how=how, exc=exc)
         elif r < 0.74:
